@@ -109,7 +109,7 @@ class Subject:
     def ops(self):
         base = self.fmt.replace("_file", "")
         paths = {"akai": akai_paths, "roland": roland_paths, "cdda": cdda_paths}[base]()
-        return [["ls", p] for p in paths] + [["export"]]
+        return [["ls", p] for p in paths] + [["export"], ["export_same"]]
 
     def fresh(self):
         if self.fmt in ("akai", "roland"):
@@ -132,6 +132,9 @@ class Subject:
             return ("ls", tree.ls(img, op[1]))
         self.n += 1
         dest = os.path.join(self.scratch, f"out{self.n}")
+        if op[0] == "export_same":
+            # always the same destination: a second export writes over the files of the first
+            dest = os.path.join(self.scratch, "same")
         out, files, reported = tree.export(img, dest)
         h = hashlib.sha1()
         for p in sorted(files):
@@ -140,6 +143,8 @@ class Subject:
 
 
 def run_history(subj, hist):
+    import shutil
+    shutil.rmtree(os.path.join(subj.scratch, "same"), ignore_errors=True)
     img = subj.fresh()
     obs = None
     for op in hist:
@@ -154,7 +159,8 @@ class Check(CheckBase):
     rule = ("per image (AKAI: 2 partitions x 2 volumes, L/R pair, fragmented chains, a program, a file filling its last "
             "sector; Roland: 2 volumes + orphan performance, shared sample, reverse mode, L/R pair; CDDA: duplicate and missing "
             "titles; AKAI and Roland again as read-only real files) the alphabet is ls(p) for every node path p, three invalid "
-            "paths, and export; ALL histories of length <=2 (quick) / <=3 (thorough; Roland <=2 plus all length-3 histories "
+            "paths, export into a fresh directory, and export into one fixed directory (so that a repeated export writes over "
+            "its own files); ALL histories of length <=2 (quick) / <=3 (thorough; Roland <=2 plus all length-3 histories "
             "ending in export) run on ONE image object; oracle: observable of the last operation (stdout; exported paths + "
             "content digest) equals that of the same operation on a fresh object, and the image bytes are unchanged. states = "
             "histories, transitions = operations. non-trivial = history of length >=2")
